@@ -11,6 +11,7 @@
 (*   Settable(rec, inh)      the kernel accepts the record (no             *)
 (*                           CAP_SYS_RESOURCE in the initial user ns)      *)
 (*   ExpectedStatus(...)     usage > bound -> MLE / TLE, else the table    *)
+(*   StartDispositionsOK     SIGXCPU / SIGXFSZ not ignored on entry        *)
 (*   Retained(w, N)          pkg/pipe Buffer: min(written, N+1)            *)
 (***************************************************************************)
 EXTENDS Status
@@ -57,6 +58,16 @@ Settable(rec, inh) ==
      LET l == ConfiguredLim(rec, res) IN
        /\ ~Less(l.max, l.cur)
        /\ ~Less(inh[res + 1].max, l.max)
+
+(* ------------------- start state: signal dispositions ----------------- *)
+(* A limit is only in force if crossing it has the documented effect: RLIMIT_FSIZE ends the       *)
+(* program with SIGXFSZ, the soft RLIMIT_CPU with SIGXCPU.  An ignored disposition survives fork  *)
+(* and execve, so the dispositions the program is started with are part of the start state the    *)
+(* runner is responsible for: the limit signals must not be ignored on entry unless the caller    *)
+(* itself ignores them (then it is the caller's doing, inherited unchanged).                       *)
+LimitSignals == {SIGXCPU, SIGXFSZ}
+IgnoredLimitSignals(ign, callerIgn) == (ign \cap LimitSignals) \ callerIgn
+StartDispositionsOK(ign, callerIgn) == IgnoredLimitSignals(ign, callerIgn) = {}
 
 (* ------------------------------ verdicts ------------------------------- *)
 (* runner.Limit is compared by the ptrace and namespace runners at every wait event of the   *)
